@@ -31,6 +31,7 @@ ASSUMPTIONS = [
     "pairs whose distance lies within 1e-6 of the cutoff are not compared (the case is skipped)",
     "per-atom radius lists as cutoff are not generated (the function's docstring and ASE disagree on their meaning)",
     "labels are compared among atoms of admitted components; every other atom must equal the supplied default (-1 when none)",
+    "an ndarray default that is modified in place is reported: the 'supplied default' of any later search would silently contain earlier labels",
 ]
 LEVEL_TEXT = "Bounded exploration of index subsets/array sets and of geometries/cutoffs/filters with exact oracles (byte equality; independent union-find over minimum-image distances)."
 LEVEL_NOTE = "Trusted: ASE Atoms slicing/deletion, brute-force image enumeration (-2..2 per periodic axis)."
@@ -184,6 +185,9 @@ def run_search(case):
     except Exception as exc:
         return {"labels": labels + ["raised"], "nontrivial": True, "key": key, "violation": {"kind": f"search-raises:{type(exc).__name__}" + (":default" if default is not None else ""), "detail": f"{desc}: {exc!r}"[:500]}}
     out = {"labels": labels, "nontrivial": nontrivial, "key": key, "violation": None}
+    if isinstance(d_arg, np.ndarray) and not np.array_equal(d_arg, np.array(default, dtype=int)):
+        out["violation"] = {"kind": "search-default-modified", "detail": f"{desc}: the caller's default array was modified in place (now {d_arg.tolist()}): a later search with the same array no longer starts from the supplied default"}
+        return out
     if got.shape != (n,):
         out["violation"] = {"kind": "search-shape", "detail": f"{desc}: returned shape {got.shape}"}
         return out
